@@ -45,7 +45,10 @@ def main(argv):
         with open(argv[2]) as f:
             body = json.load(f)
         mod = importlib.import_module(CHECKS[body["property"]])
-        v = mod.replay(body["harness"], engine.unjson(body["config"]), engine.unjson(body["case"]))
+        if body["harness"] == "engine.step":
+            v = engine.replay_step(engine.unjson(body["config"]), engine.unjson(body["case"]))
+        else:
+            v = mod.replay(body["harness"], engine.unjson(body["config"]), engine.unjson(body["case"]))
         if v is None:
             print("NOT-REPRODUCED (property holds on this case)")
             return 0
